@@ -157,6 +157,7 @@ type verifC11Sub struct {
 	hinted     bool           // the cache model predicts that the snapshot comes from the snapshot cache
 	cands      []verifC11Cand // store versions the next snapshot may legitimately show
 	matched    []verifC11Cand // those it did show
+	served     []verifC11Cand // every snapshot that may have been served to it (for naming the root cause of later anomalies)
 	subEpoch   int
 	pendingSub int
 	resumed    bool
@@ -517,6 +518,7 @@ func (w *verifC11World) subscribe(id int, q verifC11Q, token string, old *verifC
 		s.mustClose = ""
 		s.after = 0
 		s.matched = nil
+		s.served = nil
 	}
 	pbreq := q.pbRequest(verifC11Secret(token), index)
 	sreq, err := state.PBToStreamSubscribeRequest(pbreq, pbreq.EnterpriseMeta())
@@ -1026,6 +1028,9 @@ func (w *verifC11World) onSnapshot(s *verifC11Sub, idx uint64) bool {
 		w.c.Label("mode=cached-snapshot(same-version)") // predicted by the cache model; indistinguishable from a fresh one
 		s.eligible = true
 	}
+	// Which of the candidate snapshots was served cannot always be told (ServiceList content is compared modulo the
+	// kinds finding, a cached snapshot may equal a fresh one): anomalies are attributed with all of them in mind.
+	s.served = append([]verifC11Cand(nil), s.cands...)
 	s.lastIdx, s.hasView = idx, true
 	s.baseEpoch = s.matched[0].ver.epoch
 	s.after = 0
@@ -1035,7 +1040,7 @@ func (w *verifC11World) onSnapshot(s *verifC11Sub, idx uint64) bool {
 // classify names the root cause of an anomaly seen at the delivery of the batch with raft index i.
 func (w *verifC11World) classify(s *verifC11Sub, i uint64, ver *verifC11Version, fallback string) string {
 	// the batch was committed but unpublished, together with at least one other, when the snapshot was built
-	for _, m := range s.matched {
+	for _, m := range s.served {
 		if len(m.queued) >= 2 {
 			for _, qi := range m.queued {
 				if qi == i {
@@ -1115,7 +1120,7 @@ func (w *verifC11World) onEvent(s *verifC11Sub, i uint64) bool {
 func verifC11QueuedOf(s *verifC11Sub) []uint64 {
 	var out []uint64
 	seen := map[uint64]bool{}
-	for _, m := range s.matched {
+	for _, m := range s.served {
 		for _, q := range m.queued {
 			if !seen[q] {
 				seen[q] = true
